@@ -509,8 +509,13 @@ def alt_freeze(ctx):
     if alt is not None:
         full = ev.expand(alt)
         # reload atoms of the just-written vertical velocity -> stored value (0)
-        mp = {'%s[%s,2]' % (pa['vel'].name, rk1): ev.expand(vd) if vd is not None else A.const(0),
-              '%s[%s,2]' % (pa['vel'].name, rk0): A.const(0)}      # inductive fact: stored VD = 0
+        # a reload of the vertical velocity written in this step stands for the value of the
+        # store it was read after (unsuffixed atom: the first store, `@n`: the n-th)
+        vds_ = [v_ for r_, i_, v_, _n in pa['vel'].store_log if r_ == rk1 and tuple(i_) == (2,)]
+        nm_ = '%s[%s,2]' % (pa['vel'].name, rk1)
+        mp = {'%s[%s,2]' % (pa['vel'].name, rk0): A.const(0)}      # inductive fact: stored VD = 0
+        for n_, v_ in enumerate(vds_, 1):
+            mp[nm_ if n_ == 1 else '%s@%d' % (nm_, n_)] = A.subst(ev.expand(v_), mp)
         full = A.subst(full, mp)
         okalt = A.eq(full, A.sym('%s[%s,2]' % (pa['lla'].name, rk0)))
     ctx.ob('ALT-FREEZE', okalt, None, 'kernel: altitude[j+1] = altitude[j] given stored VD = 0',
